@@ -10,9 +10,9 @@ echo "== changed files:"; git status --short
 echo "== suite with patch:"; go build ./... && go test -vet=off -count=1 ./... 2>&1 | grep -v 'no test files' | grep -c '^ok'; go test -vet=off -count=1 ./... 2>&1 | grep -E 'FAIL|panic' | head -3
 cp "$out/demo/$demo" "$wt/$dest/"
 echo "== demo with patch (must FAIL):"; go test -vet=off -count=1 "$@" 2>&1 | tail -3
-git stash -q
+git diff > /tmp/seedeval-$pid-$k.patch; git apply -R /tmp/seedeval-$pid-$k.patch
 echo "== demo without patch (must PASS):"; go test -vet=off -count=1 "$@" 2>&1 | tail -2
-git stash pop -q
+git apply /tmp/seedeval-$pid-$k.patch
 rm -f "$wt/$dest/$demo"
 echo "== our check (quick) on the patched tree:"
 VERIF_REPO="$wt" /verif/check "$pid" quick > /tmp/seedcheck-$pid-$k.out 2>&1; echo "exit=$?"; grep -E '^VIOLATION|^property=|INCONCLUSIVE' /tmp/seedcheck-$pid-$k.out | head -5; grep -A4 '^VIOLATION' /tmp/seedcheck-$pid-$k.out | head -8
